@@ -234,6 +234,9 @@ def cover_method(ctx, rule, fn, vis, who):
         # the call must not sit in a CFG cycle (that would visit it repeatedly)
         for scc in body.sccs():
             if bi in scc:
+                from .evalonce import _drawn_from_iterator
+                if len(t["args"]) > 1 and _drawn_from_iterator(body, t["args"][1]):
+                    continue   # one element of a sequence child per round
                 ok = False
                 why = "the visit of child `%s` sits in a loop of %s" % (lstr(L), body.path)
         cur = body
